@@ -42,7 +42,7 @@ static void vt_node(FILE* out, const cbor_item_t* it) {
       fprintf(out, "{\"t\":\"%s\",\"w\":0,\"def\":%s,\"v\":", bs ? "bstr" : "tstr", def ? "true" : "false");
       if (def) {
         raw(out, bs ? cbor_bytestring_handle(it) : cbor_string_handle(it), bs ? cbor_bytestring_length(it) : cbor_string_length(it));
-        fprintf(out, ",\"nc\":0,\"cp\":%zu,\"rc\":%zu}", bs ? (size_t)0 : cbor_string_codepoint_count(it), rc);
+        fprintf(out, ",\"nc\":0,\"cp\":%zu,\"rc\":%zu}", bs ? (size_t)0 : it->metadata.string_metadata.codepoint_count /* read in place: observing must not perturb */, rc);
       } else {
         size_t n = bs ? cbor_bytestring_chunk_count(it) : cbor_string_chunk_count(it);
         cbor_item_t** ch = bs ? cbor_bytestring_chunks_handle(it) : cbor_string_chunks_handle(it);
